@@ -1,1 +1,18 @@
-fn main() {}
+mod alpha;
+mod c13;
+mod dtype;
+mod exhaustive;
+mod text;
+mod grid;
+mod matrix;
+mod model;
+fn main() {
+    let ctx = vcore::Ctx::from_args();
+    match ctx.prop.as_str() {
+        "C13" => c13::run(&ctx),
+        other => {
+            eprintln!("MACHINERY: vk-cast does not serve property {other:?}");
+            std::process::exit(2)
+        }
+    }
+}
